@@ -1,10 +1,21 @@
 module verif
 
-go 1.21
+go 1.23
+
+toolchain go1.23.5
 
 require (
 	github.com/ajitpratap0/GoSQLX v0.0.0
 	pgregory.net/rapid v1.3.0
+)
+
+require (
+	github.com/fsnotify/fsnotify v1.9.0 // indirect
+	github.com/spf13/cobra v1.10.1 // indirect
+	github.com/spf13/pflag v1.0.9 // indirect
+	golang.org/x/sys v0.20.0 // indirect
+	golang.org/x/term v0.20.0 // indirect
+	gopkg.in/yaml.v3 v3.0.1 // indirect
 )
 
 replace github.com/ajitpratap0/GoSQLX => /repo
